@@ -23,7 +23,7 @@ func init() {
 			"+o/-o/+v on members, 353 with new names); the specification states S_0,S_1,.. are produced by the relational tracker model. Foreground and background harness handlers for every verb take exactly one tracker call " +
 			"(GetChannel, atomic under the tracker's lock): a foreground handler for line n first waits until the receive goroutine has logged line n+1 (so a broken loop could have applied it) and yields repeatedly, then its snapshot must equal S_n; " +
 			"a background handler's snapshot must equal S_k for some n <= k <= R, R = lines the receive goroutine had logged when the call returned. The server end reads in bursts so internal handlers that send (WHO) are sometimes stalled. " +
-			"Only foreground samples taken after line n+1 had been received can refute 'not ahead'; Plus virtual-time sessions (testing/synctest) whose foreground handlers run for up to an hour: the tracker must show exactly the handler's own line at entry and at exit. Supervised-reconnect sessions (see C03): the slow handler keeps querying the tracker while the link drops and a supervisor reconnects; the channel joined before its line must stay tracked and nothing of the next connection may appear while it runs. A quarter of the renames respell a nick in letter case only. A third of the topic changes remove the topic (empty trailing parameter). distinct_nontrivial = distinct (verb, handler kind, next-line-already-received, GOMAXPROCS) cells.",
+			"Only foreground samples taken after line n+1 had been received can refute 'not ahead'; Plus virtual-time sessions (testing/synctest) whose foreground handlers run for up to an hour: the tracker must show exactly the handler's own line at entry and at exit. Supervised-reconnect sessions (see C03): the slow handler keeps querying the tracker while the link drops and a supervisor reconnects; the channel joined before its line must stay tracked and nothing of the next connection may appear while it runs. A quarter of the renames respell a nick in letter case only. A third of the topic changes remove the topic (empty trailing parameter). The channel's name has capital letters in every other session. distinct_nontrivial = distinct (verb, handler kind, next-line-already-received, GOMAXPROCS) cells.",
 		Assumptions: []string{"the '<- line' log record marks the point after which the event loop may receive that line; it is used to bound R and to time foreground samples, never as an oracle for the tracker's content"},
 		Plan: func(tier string, seed int64) []Batch {
 			var bs []Batch
